@@ -1,29 +1,74 @@
 // C17 harness: igris/util/crc.{h,c} against the Lean model (IgrisModel/C17).
 #include "common/hv.h"
+// PUBLIC API only (round 3b): crc.c is compiled as C and linked (checks/C17.json "repo_sources"); nothing that is
+// file-static in crc.c is named here - tables are read out behaviourally (ops tbl8, tbl32)
 #include <igris/util/crc.h>
-// the table is `static`: reach it by including the translation unit itself
-#include <igris/util/crc.c>
 
 #include <sys/mman.h>
 #include <sys/wait.h>
 #include <fcntl.h>
 #include <sanitizer/asan_interface.h>
 #include <type_traits>
+#include <linux/perf_event.h>
+#include <linux/hw_breakpoint.h>
+#include <sys/syscall.h>
 
 using namespace hv;
 typedef std::vector<uint8_t> bytes;
 
 // ---------------------------------------------------------------- round 3 helpers
-// widths of the length / seed / result types, read out of the prototypes the build sees
-template <class R, class A, class B, class C> static std::string sz3(R (*)(A, B, C))
+// widths of the length / seed / result types, read out of the prototypes the build sees.  Round 3b: the property
+// does not fix the C types, only that every length / seed / value of the documented width can be passed and
+// returned: the COMPARED result says for every slot "not narrower than the model's width" (`>=k`, or `<k:actual`),
+// the actual sizeof goes into a TAG (a widened parameter is harmless and must not alarm).
+static std::string ge(size_t actual, size_t model) { return actual >= model ? ">=" + std::to_string(model) : "<" + std::to_string(model) + ":" + std::to_string(actual); }
+template <class R, class A, class B, class C> static std::string sz3(R (*)(A, B, C), size_t m, std::string &tag)
 {
-    return std::to_string(sizeof(B)) + " " + std::to_string(sizeof(C)) + " " + std::to_string(sizeof(R));
+    tag = std::to_string(sizeof(B)) + "." + std::to_string(sizeof(C)) + "." + std::to_string(sizeof(R));
+    return ge(sizeof(B), m) + " " + ge(sizeof(C), m) + " " + ge(sizeof(R), m);
 }
-template <class R, class A, class B> static std::string sz2(R (*)(A, B)) { return std::to_string(sizeof(B)) + " " + std::to_string(sizeof(R)); }
-template <class A, class B> static std::string szs(void (*)(A, B))
+template <class R, class A, class B> static std::string sz2(R (*)(A, B), size_t m, std::string &tag)
 {
-    return std::to_string(sizeof(typename std::remove_pointer<A>::type)) + " " + std::to_string(sizeof(B));
+    tag = std::to_string(sizeof(B)) + "." + std::to_string(sizeof(R));
+    return ge(sizeof(B), m) + " " + ge(sizeof(R), m);
 }
+template <class A, class B> static std::string szs(void (*)(A, B), size_t m, std::string &tag)
+{
+    tag = std::to_string(sizeof(typename std::remove_pointer<A>::type)) + "." + std::to_string(sizeof(B));
+    return ge(sizeof(typename std::remove_pointer<A>::type), m) + " " + ge(sizeof(B), m);
+}
+// hardware watchpoint (x86 debug register through perf_event_open) on ONE byte: counts every load / store of the
+// calling thread that overlaps it, at any alignment - the byte-exact left (and right) neighbour of a buffer where
+// ASan's 8-byte granules cannot express a poisoned prefix.  Optional: when the kernel refuses, fd < 0 and the
+// caller reports the tag no-hw-watch.
+struct hw_watch
+{
+    int fd;
+    explicit hw_watch(const void *addr)
+    {
+        struct perf_event_attr a;
+        memset(&a, 0, sizeof a);
+        a.type = PERF_TYPE_BREAKPOINT;
+        a.size = sizeof a;
+        a.bp_type = HW_BREAKPOINT_RW;
+        a.bp_addr = (uintptr_t)addr;
+        a.bp_len = HW_BREAKPOINT_LEN_1;
+        a.exclude_kernel = 1;
+        a.exclude_hv = 1;
+        fd = (int)syscall(SYS_perf_event_open, &a, 0, -1, -1, 0);
+    }
+    uint64_t hits()
+    {
+        uint64_t c = 0;
+        if (fd < 0 || read(fd, &c, 8) != 8) return 0;
+        return c;
+    }
+    ~hw_watch()
+    {
+        if (fd >= 0) close(fd);
+    }
+    hw_watch(const hw_watch &) = delete;
+};
 template <class R, class A, class B, class C> static uint64_t lenmask(R (*)(A, B, C)) { return sizeof(B) >= 8 ? ~0ull : ((1ull << (8 * sizeof(B))) - 1); }
 template <class R, class A, class B> static uint64_t lenmask(R (*)(A, B)) { return sizeof(B) >= 8 ? ~0ull : ((1ull << (8 * sizeof(B))) - 1); }
 
@@ -225,6 +270,25 @@ static uint32_t ref_rt(const std::string &rt, uint32_t seed, const bytes &m)
     return ref_msb(32, 0x04C11DB7, seed, crc32_bitorder(m));
 }
 static int digits_rt(const std::string &rt) { return rt == "crc32" ? 8 : rt == "crc16" ? 4 : 2; }
+// the width of the length parameter the MODEL embeds (the documented C type)
+static uint64_t model_mask_rt(const std::string &rt) { return rt == "crc32" ? 0xffffffffull : rt == "crc16" ? 0xffffull : 0xffull; }
+// watched call: hardware watchpoints on the byte in front of data and on the byte data[len] (byte exact at EVERY
+// alignment; inside a longer mapped buffer data[len] is readable memory that ASan cannot object to)
+static bool hw_missing = false;
+static uint32_t call_rt(const std::string &rt, const uint8_t *p, uint64_t n, uint32_t seed);
+static uint32_t watched_call(const std::string &rt, const uint8_t *p, uint64_t n, uint32_t seed, out &o)
+{
+    hw_watch left(p - 1), right(p + n);
+    uint32_t r = call_rt(rt, p, n, seed);
+    uint64_t hl = left.hits(), hr = right.hits();
+    if (left.fd < 0 || right.fd < 0)
+        hw_missing = true, o.tag("no-hw-watch");
+    else
+        o.tag("hw-watch");
+    if (hl) o.fail(rt + " touched the byte in front of data (hardware watchpoint at data-1, " + std::to_string(hl) + " access(es))");
+    if (hr) o.fail(rt + " touched data[len] (hardware watchpoint at data+" + std::to_string(n) + ", " + std::to_string(hr) + " access(es))");
+    return r;
+}
 static uint64_t mask_rt(const std::string &rt)
 {
     if (rt == "crc8") return lenmask(igris_crc8);
@@ -254,9 +318,15 @@ static bool run_round3(const std::vector<std::string> &w, out &o)
     }
     if (op == "sizes")
     {
-        o.result = "crc8 " + sz3(igris_crc8) + "|crc8t " + sz3(igris_crc8_table) + "|crc16 " + sz3(igris_crc16) + "|mmc7 " + sz2(igris_mmc_crc7) +
-                   "|crc32 " + sz3(igris_crc32) + "|strm " + szs(igris_strmcrc8) + "|tbl8 " + std::to_string(sizeof dscrc2x16_table);
+        // compared: every width is at least the model's; tags: the actual sizeof (sizes of internal tables are not
+        // looked at at all)
+        std::string t[6];
+        o.result = "crc8 " + sz3(igris_crc8, 1, t[0]) + "|crc8t " + sz3(igris_crc8_table, 1, t[1]) + "|crc16 " + sz3(igris_crc16, 2, t[2]) + "|mmc7 " +
+                   sz2(igris_mmc_crc7, 1, t[3]) + "|crc32 " + sz3(igris_crc32, 4, t[4]) + "|strm " + szs(igris_strmcrc8, 1, t[5]);
         o.tag("sizes");
+        const char *nm[6] = {"crc8", "crc8t", "crc16", "mmc7", "crc32", "strm"};
+        for (int i = 0; i < 6; i++) o.tag(("w:" + std::string(nm[i]) + "=" + t[i]).c_str());
+        if (o.result.find('<') != std::string::npos) o.fail("a length / seed / result type is narrower than documented: " + o.result);
         return true;
     }
     if (op == "premain")
@@ -273,7 +343,7 @@ static bool run_round3(const std::vector<std::string> &w, out &o)
         exact_buf cell(bytes(1, 0));
         uint32_t ref = 0;
         std::string r;
-        bool reinit = false, cont = false;
+        bool reinit = false, cont = false, watched = false;
         for (size_t k = 1; k < w.size(); k++)
         {
             const std::string &t = w[k];
@@ -287,7 +357,14 @@ static bool run_round3(const std::vector<std::string> &w, out &o)
             {
                 bytes m = unhex(t.substr(2));
                 exact_buf b(m);
-                for (size_t i = 0; i < m.size(); i++) igris_strmcrc8(cell.p, (char)b.p[i]);
+                {
+                    // the routine owns exactly the ONE byte *crc: both neighbours watched (the left one lies in front of the
+                    // allocation, where ASan is granule-exact only)
+                    hw_watch wl(cell.p - 1), wr(cell.p + 1);
+                    for (size_t i = 0; i < m.size(); i++) igris_strmcrc8(cell.p, (char)b.p[i]);
+                    if (wl.hits() || wr.hits()) o.fail("strmcrc8 touched a neighbour of the one-byte crc object (hardware watchpoint)");
+                    if (wl.fd >= 0 && wr.fd >= 0) watched = true;
+                }
                 ref = ref_msb(8, 0x31, ref, m); // continuation of whatever the object held
                 if (k > 1 && w[k - 1][0] == 'f') cont = true;
             }
@@ -296,6 +373,7 @@ static bool run_round3(const std::vector<std::string> &w, out &o)
         }
         o.result = r;
         o.tag("strmobj");
+        if (watched) o.tag("hw-watch");
         if (reinit) o.tag("strm-reinit");
         if (cont) o.tag("strm-no-reinit");
         return true;
@@ -311,7 +389,7 @@ static bool run_round3(const std::vector<std::string> &w, out &o)
         bytes m = unhex(w[4]);
         size_t align = w.size() > 5 ? strtoul(w[5].c_str(), 0, 10) : 0;
         rz_buf b(m, align);
-        uint32_t r = call_rt(rt, b.p, n, seed);
+        uint32_t r = n <= m.size() ? watched_call(rt, b.p, n, seed, o) : call_rt(rt, b.p, n, seed);
         bool wrote = m.size() && memcmp(b.p, m.data(), m.size()) != 0;
         bool recall = false;
         if (n >= 1 && n <= m.size())
@@ -329,6 +407,12 @@ static bool run_round3(const std::vector<std::string> &w, out &o)
             recall = true;
         }
         wrote = wrote || (m.size() && memcmp(b.p, m.data(), m.size()) != 0);
+        if (align)
+        {
+            // the `align` addressable padding bytes in front of data are not an input either
+            for (size_t k = 1; k <= align; k++) b.p[-(ptrdiff_t)k] ^= 0xff;
+            if (call_rt(rt, b.p, n, seed) != r) o.fail(rt + ": the result depends on bytes in front of data");
+        }
         uint32_t r2 = call_rt(rt, gp.place(m, true), n, seed);
         uint32_t r3 = call_rt(rt, gp.place(m, false), n, seed);
         o.result = hexn(r, digits_rt(rt)) + " r[0," + std::to_string(n) + ") " + (wrote ? "w!" : "w-");
@@ -350,12 +434,18 @@ static bool run_round3(const std::vector<std::string> &w, out &o)
         uint64_t n = strtoull(w[2].c_str(), 0, 10);
         uint32_t seed = (uint32_t)strtoul(w[3].c_str(), 0, 16);
         uint32_t gs = (uint32_t)strtoul(w[4].c_str(), 0, 10);
-        bytes m = gen_data((size_t)(n & mask_rt(rt)), gs, 0);
+        // round 3b: when the build's parameter is WIDER than the documented type (harmless) the conversion is done
+        // here, so that the op degrades to "every length of the documented type works" (tag len-widened)
+        uint64_t eff = n & model_mask_rt(rt);
+        bool widened = (mask_rt(rt) & ~model_mask_rt(rt)) != 0;
+        if (!widened) eff = n & mask_rt(rt);
+        bytes m = gen_data((size_t)eff, gs, 0);
         exact_buf b(m);
-        uint32_t r = call_rt(rt, b.p, n, seed);
+        uint32_t r = call_rt(rt, b.p, widened ? eff : n, seed);
         o.result = hexn(r, digits_rt(rt));
         if (r != ref_rt(rt, seed, m)) o.fail(rt + " with length " + std::to_string(n) + " != reference over (length mod 2^width) bytes");
         o.tag(("trunc-" + rt).c_str());
+        if (widened) o.tag("len-widened");
         return true;
     }
     if (op == "big")
@@ -424,7 +514,27 @@ static void run_op(const std::vector<std::string> &w, const std::string &, out &
     if (run_round3(w, o)) return;
     if (op == "tbl8")
     {
-        o.result = hex(dscrc2x16_table, sizeof dscrc2x16_table);
+        // round 3b: the 2x16 nibble table the compiled routine EFFECTIVELY uses, read out behaviourally: row i of the
+        // low half = igris_crc8_table of the one-byte message i from seed 0, row i of the high half = of the byte
+        // 16*i (Lean: tbl8_readout).  Survives any re-arrangement of the static table (split, merged to 256 entries,
+        // computed); the file-static array is not named.
+        bytes t(32);
+        for (unsigned i = 0; i < 16; i++)
+        {
+            exact_buf lo(bytes(1, (uint8_t)i)), hi(bytes(1, (uint8_t)(i << 4)));
+            t[i] = igris_crc8_table(lo.p, 1, 0);
+            t[16 + i] = igris_crc8_table(hi.p, 1, 0);
+        }
+        o.result = hex(t);
+        // the whole implied byte table: every byte, every seed nibble-decomposes over these rows and equals the reference
+        for (unsigned v = 0; v < 256; v++)
+        {
+            exact_buf one(bytes(1, (uint8_t)v));
+            uint8_t f = igris_crc8_table(one.p, 1, 0);
+            if (f != (uint8_t)(t[v & 15] ^ t[16 + (v >> 4)]) || f != ref_lsb(0x8C, 0, bytes(1, (uint8_t)v)))
+                o.fail("crc8_table of the one-byte message " + hexn(v, 2) + " is not the Dallas table entry");
+        }
+        o.tag("tbl8");
         return;
     }
     if (op == "reset")
@@ -479,7 +589,7 @@ static void run_op(const std::vector<std::string> &w, const std::string &, out &
             if (rt == "mmc7") return igris_mmc_crc7(p, (uint8_t)n);
             return igris_crc32(p, (uint32_t)n, seed);
         };
-        r = call(b.p);
+        r = n <= m.size() ? watched_call(rt, b.p, n, seed, o) : call(b.p);
         if (rt == "crc8" || rt == "crc8t") ref = ref_lsb(0x8C, seed, pre);
         else if (rt == "crc16") { ref = ref_msb(16, 0x1021, seed, pre); digits = 4; }
         else if (rt == "mmc7") ref = ref_msb(7, 0x09, 0, pre);
